@@ -713,7 +713,7 @@ Note2: that Reed-Solomon can correct up to 2*resilience_rate erasures (eg, null 
                         # Append the rest of the file by copying from the original
                         with open(filepath, 'rb') as originalfile:
                             blocksize = 65535
-                            originalfile.seek(header_size)
+                            originalfile.seek(sum(len(e["message"]) for e in entry_asm)) # resume exactly after the blocks we just wrote (this is header_size, except if the ecc track is shorter than the header or if the file size changed with --ignore_size: the output must anyway always have the size of the input)
                             buf = originalfile.read(blocksize)
                             while buf:
                                 out.write(buf)
